@@ -84,6 +84,19 @@ pub fn content_addressed() {
         let other = t1.iter().find(|(k2, _)| k2 == key).expect("an item was not copied by meld");
         assert!(other.1 == *v, "an item has different bytes on the replica that received it");
     }
+    // relay: a third replica melds from b, which holds a's blocks only as loaded from storage
+    {
+        let mut c = Rep::new();
+        c.pull(&b);
+        let u = dump(&c.ad);
+        check_names(&u);
+        assert!(u == t1, "items relayed through a second replica are not byte-identical");
+        // and from a reopened source
+        let mut c2 = Rep::new();
+        let ra = Rep { m: a.reopen(), ad: a.ad.clone() };
+        c2.pull(&ra);
+        assert!(dump(&c2.ad) == s2, "items melded from a reopened replica are not byte-identical");
+    }
     // the receiving replica commits on top and sends back
     b.m.update(doc_with(&["b"], &["z".to_string()], "u")).unwrap();
     b.m.commit(None).unwrap();
